@@ -224,6 +224,9 @@ func genC15(w *bufio.Writer, tier string, rng *rand.Rand) {
 			if d > nx-2 {
 				d = nx - 2
 			}
+			if rng.Intn(8) == 0 && nx <= 6 && nx >= 1 { // as many coefficients as points: interpolation
+				d = nx - 1
+			}
 			pd := rng.Intn(d + 1)
 			c := make([]float64, pd+1)
 			for i := range c {
@@ -253,8 +256,17 @@ func genC15(w *bufio.Writer, tier string, rng *rand.Rand) {
 					span = 1
 				}
 			}
-			if rng.Intn(3) != 0 {
+			switch rng.Intn(6) {
+			case 0, 1, 2:
 				sort.Float64s(xs)
+			case 3: // strictly descending
+				sort.Float64s(xs)
+				for i, j := 0, len(xs)-1; i < j; i, j = i+1, j-1 {
+					xs[i], xs[j] = xs[j], xs[i]
+				}
+			case 4: // ascending except for the last value
+				sort.Float64s(xs)
+				xs[0], xs[len(xs)-1] = xs[len(xs)-1], xs[0]
 			}
 			pd := rng.Intn(deg + 2)
 			c := make([]float64, pd+1)
